@@ -35,8 +35,8 @@ ASSUMPTIONS = [
     "messages are identified by the X-VF-Tag header read back with BODY.PEEK[HEADER.FIELDS]; order = arrival order",
     "\\Recent is read from the first (UID-bearing) FETCH FLAGS row issued after the searches of a segment",
     "BEFORE/ON/SINCE are asserted only when the date in the reported INTERNALDATE, its UTC date and the date "
-    "written in the APPEND date-time agree on the answer; SENT* only when the date as written in the Date header "
-    "and its UTC date agree; messages without a parsable Date header are not judged for SENT*",
+    "written in the APPEND date-time agree on the answer; SENT* is judged by the date as written in the Date header "
+    "(RFC 3501: disregarding time and timezone); messages without a parsable Date header are not judged for SENT*",
     "BODY is judged true when the string is in a text part, false when it is nowhere after the top-level header, "
     "otherwise (MIME part headers, boundaries) not judged; keyword matching is asserted for exact case only",
     "a NO to CHARSET UTF-8 is accepted; keywords avoid MH sequence alias names (C04's finding)",
